@@ -1,4 +1,6 @@
 import PynProofs.Search
+import PynProps.C05
+import PynProofs.SetOps
 import PynModel.Core.Slice
 import PynModel.Core.Trial
 /-!
@@ -11,11 +13,13 @@ Proved: `get(start, end)` (mode `restrict`) returns exactly the samples with
 returns a sample nearest to `start`, for any non-empty sorted series and any `start` before, inside or after the
 data, Python's wrap-around read `t[-1]` included (`get_nearest`).  `to_trial_tensor` (`PynModel/Core/Trial.lean`): one row per trial,
 all rows equally long, sample `k` in row `i` iff `start_i ≤ t[k] ≤ end_i`, occupied cells consecutive in time
-order at the start / end of the row (`trial_rows`, `trialRow_mem`).  The modes `before_t` / `after_t`, trial_count
-and warp are decided by oracle + correspondence.
+order at the start / end of the row (`trial_rows`, `trialRow_mem`).  `trial_count`: `trialCount_rows` — row i read without padding is the
+list of counts of exactly the bins of `count` whose centre lies in trial i, in order, and the preallocated width
+always suffices (`countK_window`, `nbBins_le_width`).  The modes `before_t` / `after_t` and warp are decided by oracle +
+correspondence.
 -/
 namespace Pyn.C08
-open Pyn
+open Pyn Pyn.C05
 
 /-- in `restrict` mode the slice is `[searchsorted(t, start, left), searchsorted(t, end, right))` -/
 theorem getSlice_restrict_eq (t : Array Int) (s e : Int) (hse : s ≤ e) :
@@ -246,6 +250,472 @@ theorem trial_rows (t : Array Int) (hs : Sorted t) (trials : List (Int × Int)) 
       constructor <;> omega
     · rintro ⟨a, b⟩
       constructor <;> omega
+
+
+/-! ## trial_count: each trial's binned counts in that trial's row -/
+
+/-- centres strictly increase along the array and are all at most `b` -/
+def CInc (out : Array (Int × Nat × Int)) (b : Int) : Prop :=
+  (∀ i j, (hi : i < out.size) → (hj : j < out.size) → i < j → out[i].1 < out[j].1) ∧ ∀ i, (hi : i < out.size) → out[i].1 ≤ b
+
+theorem binLoop_cinc (ts dat : Array Int) (maxt : Nat) (hm : maxt ≤ ts.size) (e bs : Int) (hbs : 0 < bs) (nb : Nat)
+    (l : Int) (t : Nat) (out : Array (Int × Nat × Int)) (h : CInc out (2 * l)) :
+    CInc (binLoop ts dat maxt hm e bs nb l t out) (max (2 * l) (2 * e)) := by
+  obtain ⟨c1, c2, c3, c4⟩ := binLoop_centres ts dat maxt hm e bs nb l t out
+  obtain ⟨h1, h2⟩ := h
+  have hnew : ∀ k, out.size ≤ k → (hk : k < (binLoop ts dat maxt hm e bs nb l t out).size) →
+      2 * l < (binLoop ts dat maxt hm e bs nb l t out)[k].1 := by
+    intro k hk1 hk
+    rw [(c4 k hk1 hk).1]
+    have : (0 : Int) ≤ ((k - out.size : Nat) : Int) * bs := Int.mul_nonneg (Int.natCast_nonneg _) (Int.le_of_lt hbs)
+    omega
+  constructor
+  · intro i j hi hj hij
+    rcases Nat.lt_or_ge j out.size with hjo | hjo
+    · rw [c3 i (by omega) hi, c3 j hjo hj]; exact h1 i j (by omega) hjo hij
+    · rcases Nat.lt_or_ge i out.size with hio | hio
+      · rw [c3 i hio hi]
+        have := h2 i hio
+        have := hnew j hjo hj
+        omega
+      · rw [(c4 i hio hi).1, (c4 j hjo hj).1]
+        have hlt : ((i - out.size : Nat) : Int) + 1 ≤ ((j - out.size : Nat) : Int) := by omega
+        have := Int.mul_le_mul_of_nonneg_right hlt (Int.le_of_lt hbs)
+        rw [Int.add_mul] at this
+        omega
+  · intro i hi
+    rcases Nat.lt_or_ge i out.size with hio | hio
+    · rw [c3 i hio hi]; have := h2 i hio; omega
+    · have := (c4 i hio hi).2; omega
+
+theorem cinc_empty (b : Int) : CInc #[] b :=
+  ⟨fun i j hi => absurd hi (by simp), fun i hi => absurd hi (by simp)⟩
+
+theorem cinc_mono (out : Array (Int × Nat × Int)) (b b' : Int) (h : CInc out b) (hb : b ≤ b') : CInc out b' :=
+  ⟨h.1, fun i hi => Int.le_trans (h.2 i hi) hb⟩
+
+theorem countK_cinc (ts dat st en : Array Int) (hm : st.size = en.size) (hc : Canon st en hm) (countin : Array Nat)
+    (bs : Int) (hbs : 0 < bs) (k t : Nat) (out : Array (Int × Nat × Int))
+    (hinv : (∃ b, CInc out b) ∧ ∀ hk : k < st.size, CInc out (2 * st[k]))
+    (r : Array (Int × Nat × Int)) (hr : countK ts dat st en hm countin bs k t out = .ok r) : ∃ b, CInc r b := by
+  induction hn : st.size - k generalizing k t out with
+  | zero =>
+    unfold countK at hr
+    have : ¬ k < st.size := by omega
+    simp only [dif_neg this] at hr
+    cases hr; exact hinv.1
+  | succ n ih =>
+    have hk : k < st.size := by omega
+    unfold countK at hr
+    simp only [dif_pos hk, bind, Except.bind] at hr
+    cases hc0 : rdN countin k with
+    | error e => simp [hc0] at hr
+    | ok ck =>
+      simp only [hc0] at hr
+      split at hr
+      · rename_i hmax
+        have hb := binLoop_cinc ts dat (t + ck) hmax (en[k]'(hm ▸ hk)) bs hbs (nbBins st[k] (en[k]'(hm ▸ hk)) bs) st[k] t out (hinv.2 hk)
+        have hle := hc.1 k hk
+        refine ih (k+1) (t + ck) _ ⟨⟨_, hb⟩, fun hk' => ?_⟩ hr (by omega)
+        have hsep := hc.2 k hk'
+        exact cinc_mono _ _ _ hb (by omega)
+      · cases hr
+
+theorem filter_range_window (n a b : Nat) (hab : a ≤ b) (hb : b ≤ n) :
+    ((List.range n).filter fun k => decide (a ≤ k) && decide (k < b)) = (List.range (b - a)).map (a + ·) := by
+  induction n generalizing b with
+  | zero =>
+    have : b = 0 := by omega
+    subst this; simp
+  | succ n ih =>
+    rw [List.range_succ, List.filter_append]
+    rcases Nat.eq_or_lt_of_le hb with e | e
+    · subst e
+      rcases Nat.eq_or_lt_of_le hab with e2 | e2
+      · subst e2
+        have : ((List.range n).filter fun k => decide (n + 1 ≤ k) && decide (k < n + 1)) = [] := by
+          rw [List.filter_eq_nil_iff]; intro k hk; simp only [List.mem_range] at hk; simp
+        rw [this]; simp
+      · have e1 : ((List.range n).filter fun k => decide (a ≤ k) && decide (k < n + 1)) =
+            ((List.range n).filter fun k => decide (a ≤ k) && decide (k < n)) := by
+          apply List.filter_congr; intro k hk; simp only [List.mem_range] at hk
+          simp [hk, Nat.lt_succ_of_lt hk]
+        rw [e1, ih n (by omega) (Nat.le_refl _)]
+        have han : a ≤ n := by omega
+        have : n + 1 - a = (n - a) + 1 := by omega
+        rw [this, List.range_succ, List.map_append]
+        simp [han]
+    · rw [ih b hab (by omega)]
+      have : ¬ n < b := by omega
+      simp [this]
+
+theorem trialRow_toList (a len nt : Nat) (hl : len ≤ nt) (al : Bool) :
+    (trialRow a len nt al).toList =
+      if al then List.replicate (nt - len) none ++ (List.range len).map (fun j => some (a + j))
+      else (List.range len).map (fun j => some (a + j)) ++ List.replicate (nt - len) none := by
+  apply List.ext_getElem
+  · cases al <;> simp [trialRow_size] <;> omega
+  · intro j h1 h2
+    have hj : j < nt := by simpa [trialRow_size] using h1
+    rw [Array.getElem_toList, trialRow_get]
+    cases al
+    · simp only [Bool.false_eq_true, if_false]
+      by_cases hjl : j < len
+      · simp [hjl, List.getElem_append_left]
+      · rw [List.getElem_append_right (by simpa using hjl)]
+        simp [hjl]
+    · simp only [if_true]
+      by_cases hjl : nt - len ≤ j
+      · rw [List.getElem_append_right (by simpa using hjl)]
+        simp [hjl]
+      · have : j < nt - len := by omega
+        rw [List.getElem_append_left (by simpa using this)]
+        simp [hjl]
+
+theorem filterMap_replicate_none' {α} (n : Nat) : (List.replicate n (none : Option α)).filterMap id = [] := by
+  induction n with
+  | zero => rfl
+  | succ n ih => simp [List.replicate_succ, ih]
+
+theorem somes_filterMap {α} (l : List Nat) (g : Nat → α) :
+    (l.map fun j => (some (g j) : Option α)).filterMap id = l.map g := by
+  induction l with
+  | nil => rfl
+  | cons x xs ih => simp [ih]
+
+theorem extract_left {α} (xs : List (Option α)) (n mx : Nat) (h : xs.length ≤ mx) :
+    ((xs ++ List.replicate n none).extract 0 mx).filterMap id = xs.filterMap id := by
+  rw [List.extract_eq_take_drop, List.drop_zero, Nat.sub_zero]
+  have : List.take mx (xs ++ List.replicate n none) = xs ++ List.take (mx - xs.length) (List.replicate n none) := by
+    rw [List.take_append]; rw [List.take_of_length_le h]
+  rw [this, List.filterMap_append, List.take_replicate, filterMap_replicate_none']
+  simp
+
+theorem extract_right {α} (xs : List (Option α)) (p nt mx : Nat) (hnt : nt = p + xs.length) (h1 : xs.length ≤ mx) :
+    ((List.replicate p none ++ xs).extract (nt - mx) nt).filterMap id = xs.filterMap id := by
+  rw [List.extract_eq_take_drop]
+  have hd : nt - mx ≤ (List.replicate p (none : Option α)).length := by simp; omega
+  rw [List.drop_append_of_le_length hd, List.drop_replicate]
+  have hlen : (List.replicate (p - (nt - mx)) (none : Option α) ++ xs).length ≤ nt - (nt - mx) := by simp; omega
+  rw [List.take_of_length_le hlen, List.filterMap_append, filterMap_replicate_none']
+  simp
+
+/-- on strictly increasing centres, the window `[ssLeft cen lo, ssRight cen hi)` holds exactly the bins with centre in
+`[lo, hi]` -/
+theorem window_filter (cnt : Array (Int × Nat × Int))
+    (hs : ∀ i j, (hi : i < cnt.size) → (hj : j < cnt.size) → i < j → cnt[i].1 < cnt[j].1)
+    (lo hi : Int) (hlh : lo ≤ hi) :
+    ssLeft (cnt.map (·.1)) lo 0 ≤ ssRight (cnt.map (·.1)) hi 0 ∧
+    (cnt.toList.filter fun e => decide (lo ≤ e.1) && decide (e.1 ≤ hi)).map (·.2.1) =
+      (List.range (ssRight (cnt.map (·.1)) hi 0 - ssLeft (cnt.map (·.1)) lo 0)).map
+        fun j => (cnt.getD (ssLeft (cnt.map (·.1)) lo 0 + j) (0, 0, 0)).2.1 := by
+  have hsorted : Sorted (cnt.map (·.1)) := by
+    intro i j hi hj hij
+    rcases Nat.eq_or_lt_of_le hij with e | e
+    · subst e; exact Int.le_refl _
+    · have := hs i j (by simpa using hi) (by simpa using hj) e
+      simpa using Int.le_of_lt this
+  generalize ha : ssLeft (cnt.map (·.1)) lo 0 = a at *
+  generalize hb : ssRight (cnt.map (·.1)) hi 0 = b at *
+  have hbn : b ≤ cnt.size := by
+    have := (ssRight_bounds (cnt.map (·.1)) hi 0 (Nat.zero_le _)).2; rw [hb] at this; simpa using this
+  have hab : a ≤ b := by
+    rcases Nat.lt_or_ge b a with h | h
+    · exfalso
+      have hbn' : b < (cnt.map (·.1)).size := by
+        have := (ssLeft_bounds (cnt.map (·.1)) lo 0 (Nat.zero_le _)).2; rw [ha] at this; omega
+      have h1 := (ssLeft_spec (cnt.map (·.1)) lo 0 hsorted).1 b (Nat.zero_le _) (by rw [ha]; exact h) hbn'
+      have h2 := (ssRight_spec (cnt.map (·.1)) hi 0 hsorted).2 b (by rw [hb]; exact Nat.le_refl _) hbn'
+      omega
+    · exact h
+  -- right-hand side: the bins at positions a .. b-1
+  have hR : (cnt.toList.filter fun e => decide (lo ≤ e.1) && decide (e.1 ≤ hi)).map (·.2.1) =
+      (List.range (b - a)).map fun j => (cnt.getD (a + j) (0, 0, 0)).2.1 := by
+    have e0 : cnt.toList = (List.range cnt.size).map fun k => cnt.getD k (0, 0, 0) := by
+      apply List.ext_getElem
+      · simp
+      · intro k h1 h2; simp at h1 ⊢; simp [h1]
+    rw [e0, List.filter_map, List.map_map]
+    have e1 : ((List.range cnt.size).filter ((fun e : Int × Nat × Int => decide (lo ≤ e.1) && decide (e.1 ≤ hi)) ∘
+        fun k => cnt.getD k (0, 0, 0))) = (List.range cnt.size).filter fun k => decide (a ≤ k) && decide (k < b) := by
+      apply List.filter_congr
+      intro k hk
+      simp only [List.mem_range] at hk
+      have hw := ss_closed_window (cnt.map (·.1)) lo hi hsorted k (by simpa using hk)
+      rw [ha, hb] at hw
+      simp only [Function.comp, Array.getD, hk, dif_pos]
+      have e2 : (cnt.map (·.1))[k]'(by simpa using hk) = cnt[k].1 := by simp
+      rw [e2] at hw
+      by_cases hin : a ≤ k ∧ k < b
+      · have := hw.1 hin; simp [hin.1, hin.2, this.1, this.2]
+      · have hn : ¬ (lo ≤ cnt[k].1 ∧ cnt[k].1 ≤ hi) := fun h => hin (hw.2 h)
+        by_cases h1 : a ≤ k
+        · have h2 : ¬ k < b := fun h => hin ⟨h1, h⟩
+          by_cases h3 : lo ≤ cnt[k].1
+          · have : ¬ cnt[k].1 ≤ hi := fun h => hn ⟨h3, h⟩
+            simp [h1, h2, h3, this]
+          · simp [h1, h2, h3]
+        · by_cases h3 : lo ≤ cnt[k].1
+          · have : ¬ cnt[k].1 ≤ hi := fun h => hn ⟨h3, h⟩
+            simp [h1, h3, this]
+          · simp [h1, h3]
+    rw [e1, filter_range_window cnt.size a b hab hbn, List.map_map]
+    rfl
+  exact ⟨hab, hR⟩
+
+/-- the cells of one (trimmed) row of `trial_count`, read left to right without the padding, are the counts of exactly
+the bins whose centre lies in `[lo, hi]`, in order -/
+theorem row_somes (cnt : Array (Int × Nat × Int))
+    (hs : ∀ i j, (hi : i < cnt.size) → (hj : j < cnt.size) → i < j → cnt[i].1 < cnt[j].1)
+    (lo hi : Int) (hlh : lo ≤ hi) (nt mx : Nat) (al : Bool)
+    (hlen : ssRight (cnt.map (·.1)) hi 0 - ssLeft (cnt.map (·.1)) lo 0 ≤ mx)
+    (hfit : ssRight (cnt.map (·.1)) hi 0 - ssLeft (cnt.map (·.1)) lo 0 ≤ nt) :
+    ((if al then
+        ((trialRow (ssLeft (cnt.map (·.1)) lo 0) (ssRight (cnt.map (·.1)) hi 0 - ssLeft (cnt.map (·.1)) lo 0) nt al).map
+          fun c => c.map fun k => (cnt.getD k (0, 0, 0)).2.1).extract (nt - mx) nt
+      else
+        ((trialRow (ssLeft (cnt.map (·.1)) lo 0) (ssRight (cnt.map (·.1)) hi 0 - ssLeft (cnt.map (·.1)) lo 0) nt al).map
+          fun c => c.map fun k => (cnt.getD k (0, 0, 0)).2.1).extract 0 mx).toList.filterMap id) =
+      (cnt.toList.filter fun e => decide (lo ≤ e.1) && decide (e.1 ≤ hi)).map (·.2.1) := by
+  obtain ⟨hab, hR⟩ := window_filter cnt hs lo hi hlh
+  generalize ha : ssLeft (cnt.map (·.1)) lo 0 = a at *
+  generalize hb : ssRight (cnt.map (·.1)) hi 0 = b at *
+  rw [hR]
+  -- left-hand side
+  have hlen' : b - a ≤ nt := hfit
+  cases al
+  · rw [if_neg (by decide)]
+    rw [Array.toList_extract, Array.toList_map, trialRow_toList a (b - a) nt hlen' false]
+    rw [if_neg (by decide)]
+    rw [List.map_append, List.map_replicate, Option.map_none, List.map_map]
+    refine (extract_left _ _ _ ?_).trans ?_
+    · simp; omega
+    · exact somes_filterMap _ _
+  · rw [if_pos rfl]
+    rw [Array.toList_extract, Array.toList_map, trialRow_toList a (b - a) nt hlen' true]
+    rw [if_pos rfl]
+    rw [List.map_append, List.map_replicate, Option.map_none, List.map_map]
+    refine (extract_right _ (nt - (b - a)) nt mx ?_ ?_).trans ?_
+    · simp; omega
+    · simp; omega
+    · exact somes_filterMap _ _
+
+/-- the width `n_t = max ceil((end + bin − start) / bin)` the code preallocates -/
+def tcWidth (st en : Array Int) (bs : Int) : Nat :=
+  ((List.range st.size).map fun i => ((en[i]! + bs - st[i]! + bs - 1) / bs).toNat).foldl max 0
+
+/-- **trial_count puts in row i exactly the binned counts of trial i, as given by count** (partial: under `hfit`).
+For a canonical, non-empty trial set and any positive bin size: whenever `count(bin, ep)` returns `cnt` — it always
+does, C15 `jitbin_safe` — `trial_count` returns one row per trial, and the cells of row `i`, read without the padding,
+are the counts of exactly the bins of `cnt` whose centre lies in `[start_i, end_i]`, in order.  `hfit` — every trial's
+bins fit into the preallocated width `n_t` — is the part NOT proved here (it is a statement about how many bins
+`jitcount` emits per interval, decided by the cell-by-cell correspondence run); without it Python raises on the row
+assignment. -/
+theorem trialCount_rows_partial (ts st en : Array Int) (hm : st.size = en.size) (hc : Canon st en hm)
+    (hne : 0 < st.size) (bs : Int) (hbs : 0 < bs) (al : Bool) (cnt : Array (Int × Nat × Int))
+    (hcnt : jitbin ts (ts.map fun _ => 0) st en hm bs = .ok cnt)
+    (hfit : ∀ i, i < st.size →
+      ssRight (cnt.map (·.1)) (2 * en[i]!) 0 - ssLeft (cnt.map (·.1)) (2 * st[i]!) 0 ≤ tcWidth st en bs) :
+    ∃ rows, trialCount ts st en hm bs al = .ok rows ∧ rows.length = st.size ∧
+      ∀ i, (hi : i < st.size) → (hi2 : i < rows.length) →
+        rows[i].toList.filterMap id =
+          (cnt.toList.filter fun e => decide (2 * st[i] ≤ e.1) && decide (e.1 ≤ 2 * en[i]'(hm ▸ hi))).map (·.2.1) := by
+  -- centres strictly increase
+  have hinc : ∃ b, CInc cnt b := by
+    unfold jitbin at hcnt
+    exact countK_cinc _ _ st en hm hc _ bs hbs 0 0 #[] ⟨⟨0, cinc_empty 0⟩, fun hk => cinc_empty _⟩ cnt hcnt
+  obtain ⟨_, hs, _⟩ := hinc
+  unfold trialCount
+  simp only [hcnt, bind, Except.bind]
+  have hemp : ((List.range st.size).map fun i => (ssLeft (cnt.map (·.1)) (2 * st[i]!) 0, ssRight (cnt.map (·.1)) (2 * en[i]!) 0)).isEmpty = false := by
+    cases hsz : st.size with
+    | zero => omega
+    | succ n => simp [List.range_succ]
+  simp only [hemp, Bool.false_eq_true, if_false, pure, Except.pure]
+  refine ⟨_, rfl, by simp, ?_⟩
+  intro i hi hi2
+  simp only [List.getElem_map, List.getElem_range]
+  have hle := hc.1 i hi
+  have e1 : st[i]! = st[i] := getElem!_pos st i hi
+  have e2 : en[i]! = en[i]'(hm ▸ hi) := getElem!_pos en i (hm ▸ hi)
+  have key := row_somes cnt hs (2 * st[i]!) (2 * en[i]!) (by rw [e1, e2]; omega) (tcWidth st en bs)
+    (((List.range st.size).map fun i => (ssLeft (cnt.map (·.1)) (2 * st[i]!) 0, ssRight (cnt.map (·.1)) (2 * en[i]!) 0)).map
+      (fun p => p.2 - p.1) |>.foldl max 0) al ?_ (hfit i hi)
+  · have hR : (cnt.toList.filter fun e => decide (2 * st[i]! ≤ e.1) && decide (e.1 ≤ 2 * en[i]!)).map (·.2.1) =
+        (cnt.toList.filter fun e => decide (2 * st[i] ≤ e.1) && decide (e.1 ≤ 2 * en[i]'(hm ▸ hi))).map (·.2.1) := by
+      rw [e1, e2]
+    refine Eq.trans ?_ (key.trans hR)
+    cases al <;> rfl
+  · apply le_foldl_max
+    left
+    simp only [List.mem_map, List.mem_range]
+    exact ⟨_, ⟨i, hi, rfl⟩, rfl⟩
+
+
+/-- number of entries whose centre lies in `[lo, hi]` -/
+def cntIn (l : List (Int × Nat × Int)) (lo hi : Int) : Nat :=
+  (l.filter fun e => decide (lo ≤ e.1) && decide (e.1 ≤ hi)).length
+
+theorem cntIn_append (l1 l2 : List (Int × Nat × Int)) (lo hi : Int) :
+    cntIn (l1 ++ l2) lo hi = cntIn l1 lo hi + cntIn l2 lo hi := by
+  simp [cntIn, List.filter_append]
+
+theorem cntIn_le_length (l : List (Int × Nat × Int)) (lo hi : Int) : cntIn l lo hi ≤ l.length :=
+  List.length_filter_le _ _
+
+theorem cntIn_zero_of (l : List (Int × Nat × Int)) (lo hi : Int) (h : ∀ e ∈ l, e.1 < lo ∨ hi < e.1) :
+    cntIn l lo hi = 0 := by
+  unfold cntIn
+  rw [List.length_eq_zero_iff, List.filter_eq_nil_iff]
+  intro e he
+  rcases h e he with h' | h' <;> simp <;> omega
+
+/-- what one epoch appends: at most `nb` entries, all with centre in `(2l, 2e]` -/
+theorem binLoop_suffix (ts dat : Array Int) (maxt : Nat) (hm : maxt ≤ ts.size) (e bs : Int) (hbs : 0 < bs) (nb : Nat)
+    (l : Int) (t : Nat) (out : Array (Int × Nat × Int)) :
+    ∃ suf : List (Int × Nat × Int), (binLoop ts dat maxt hm e bs nb l t out).toList = out.toList ++ suf ∧
+      suf.length ≤ nb ∧ ∀ x ∈ suf, 2 * l < x.1 ∧ x.1 ≤ 2 * e := by
+  obtain ⟨c1, c2, c3, c4⟩ := binLoop_centres ts dat maxt hm e bs nb l t out
+  refine ⟨(binLoop ts dat maxt hm e bs nb l t out).toList.drop out.size, ?_, ?_, ?_⟩
+  · have : (binLoop ts dat maxt hm e bs nb l t out).toList.take out.size = out.toList := by
+      apply List.ext_getElem
+      · simp; omega
+      · intro k h1 h2
+        simp at h1 h2
+        simp [List.getElem_take]
+        exact c3 k (by omega) (by omega)
+    conv => lhs; rw [← List.take_append_drop out.size (binLoop ts dat maxt hm e bs nb l t out).toList]
+    rw [this]
+  · simp; omega
+  · intro x hx
+    obtain ⟨k, hk, e1⟩ := List.mem_iff_getElem.1 hx
+    simp at hk
+    rw [List.getElem_drop] at e1
+    have hk' : out.size + k < (binLoop ts dat maxt hm e bs nb l t out).size := by omega
+    obtain ⟨f1, f2⟩ := c4 (out.size + k) (by omega) hk'
+    have e2 : x.1 = (binLoop ts dat maxt hm e bs nb l t out)[out.size + k].1 := by
+      rw [← e1]; simp
+    rw [e2]
+    refine ⟨?_, f2⟩
+    rw [f1]
+    have : (0 : Int) ≤ ((out.size + k - out.size : Nat) : Int) * bs :=
+      Int.mul_nonneg (Int.natCast_nonneg _) (Int.le_of_lt hbs)
+    omega
+
+theorem countK_window (ts dat st en : Array Int) (hm : st.size = en.size) (hc : Canon st en hm) (countin : Array Nat)
+    (bs : Int) (hbs : 0 < bs) (i : Nat) (hi : i < st.size) (k t : Nat) (out : Array (Int × Nat × Int))
+    (r : Array (Int × Nat × Int)) (hr : countK ts dat st en hm countin bs k t out = .ok r) :
+    cntIn r.toList (2 * st[i]) (2 * en[i]'(hm ▸ hi)) ≤
+      cntIn out.toList (2 * st[i]) (2 * en[i]'(hm ▸ hi)) +
+        (if k ≤ i then nbBins st[i] (en[i]'(hm ▸ hi)) bs else 0) := by
+  induction hn : st.size - k generalizing k t out with
+  | zero =>
+    unfold countK at hr
+    have : ¬ k < st.size := by omega
+    simp only [dif_neg this] at hr
+    cases hr; omega
+  | succ n ih =>
+    have hk : k < st.size := by omega
+    unfold countK at hr
+    simp only [dif_pos hk, bind, Except.bind] at hr
+    cases hc0 : rdN countin k with
+    | error e => simp [hc0] at hr
+    | ok ck =>
+      simp only [hc0] at hr
+      split at hr
+      · rename_i hmax
+        obtain ⟨suf, e1, e2, e3⟩ := binLoop_suffix ts dat (t + ck) hmax (en[k]'(hm ▸ hk)) bs hbs
+          (nbBins st[k] (en[k]'(hm ▸ hk)) bs) st[k] t out
+        have hrec := ih (k+1) (t + ck) _ hr (by omega)
+        rw [e1, cntIn_append] at hrec
+        rcases Nat.lt_trichotomy k i with hlt | heq | hgt
+        · have hz : cntIn suf (2 * st[i]) (2 * en[i]'(hm ▸ hi)) = 0 := by
+            apply cntIn_zero_of
+            intro x hx
+            have := (e3 x hx).2
+            have := canon_sep' st en hm hc k i hlt hi
+            omega
+          have h1 : k + 1 ≤ i := hlt
+          have h2 : k ≤ i := by omega
+          simp only [h1, h2, if_true] at hrec ⊢
+          omega
+        · subst heq
+          have hle : cntIn suf (2 * st[k]) (2 * en[k]'(hm ▸ hk)) ≤ nbBins st[k] (en[k]'(hm ▸ hk)) bs :=
+            Nat.le_trans (cntIn_le_length _ _ _) e2
+          have h1 : ¬ k + 1 ≤ k := by omega
+          simp only [h1, if_false, Nat.le_refl, if_true] at hrec ⊢
+          omega
+        · have hz : cntIn suf (2 * st[i]) (2 * en[i]'(hm ▸ hi)) = 0 := by
+            apply cntIn_zero_of
+            intro x hx
+            have := (e3 x hx).1
+            have := canon_sep' st en hm hc i k hgt hk
+            omega
+          have h1 : ¬ k + 1 ≤ i := by omega
+          have h2 : ¬ k ≤ i := by omega
+          simp only [h1, h2, if_false] at hrec ⊢
+          omega
+      · cases hr
+
+theorem nbBins_le_width (st en : Array Int) (hm : st.size = en.size) (bs : Int) (hbs : 0 < bs) (i : Nat)
+    (hi : i < st.size) (hle : st[i] ≤ en[i]'(hm ▸ hi)) :
+    nbBins st[i] (en[i]'(hm ▸ hi)) bs ≤ tcWidth st en bs := by
+  have h1 : nbBins st[i] (en[i]'(hm ▸ hi)) bs ≤ ((en[i]'(hm ▸ hi) + bs - st[i] + bs - 1) / bs).toNat := by
+    unfold nbBins
+    split
+    · have e : en[i]'(hm ▸ hi) + bs - st[i] + bs - 1 = en[i]'(hm ▸ hi) + bs - st[i] + bs - 1 := rfl
+      omega
+    · have h2 : (1 : Int) ≤ (en[i]'(hm ▸ hi) + bs - st[i] + bs - 1) / bs := by
+        have : bs * 1 ≤ en[i]'(hm ▸ hi) + bs - st[i] + bs - 1 := by omega
+        exact (Int.le_ediv_iff_mul_le hbs).2 (by omega)
+      omega
+  apply Nat.le_trans h1
+  unfold tcWidth
+  apply le_foldl_max
+  left
+  simp only [List.mem_map, List.mem_range]
+  refine ⟨i, hi, ?_⟩
+  rw [getElem!_pos st i hi, getElem!_pos en i (hm ▸ hi)]
+
+
+/-- **trial_count puts in row i exactly the binned counts of trial i, as given by count** — full statement: for a
+canonical, non-empty trial set, any positive bin size and either alignment, whenever `count(bin, ep)` returns `cnt` (it
+always does: C15 `jitbin_safe`), `trial_count` returns one row per trial and the cells of row `i`, read without the
+padding, are the counts of exactly the bins of `cnt` whose centre lies in `[start_i, end_i]`, in order.  The width the
+code preallocates always suffices (`countK_window`, `nbBins_le_width`: an interval never gets more bins than
+`ceil((end + bin − start) / bin)`), so the row assignment never overflows. -/
+theorem trialCount_rows (ts st en : Array Int) (hm : st.size = en.size) (hc : Canon st en hm)
+    (hne : 0 < st.size) (bs : Int) (hbs : 0 < bs) (al : Bool) (cnt : Array (Int × Nat × Int))
+    (hcnt : jitbin ts (ts.map fun _ => 0) st en hm bs = .ok cnt) :
+    ∃ rows, trialCount ts st en hm bs al = .ok rows ∧ rows.length = st.size ∧
+      ∀ i, (hi : i < st.size) → (hi2 : i < rows.length) →
+        rows[i].toList.filterMap id =
+          (cnt.toList.filter fun e => decide (2 * st[i] ≤ e.1) && decide (e.1 ≤ 2 * en[i]'(hm ▸ hi))).map (·.2.1) := by
+  apply trialCount_rows_partial ts st en hm hc hne bs hbs al cnt hcnt
+  intro i hi
+  have hinc : ∃ b, CInc cnt b := by
+    have h := hcnt
+    unfold jitbin at h
+    exact countK_cinc _ _ st en hm hc _ bs hbs 0 0 #[] ⟨⟨0, cinc_empty 0⟩, fun hk => cinc_empty _⟩ cnt h
+  obtain ⟨_, hs, _⟩ := hinc
+  have hle := hc.1 i hi
+  have e1 : st[i]! = st[i] := getElem!_pos st i hi
+  have e2 : en[i]! = en[i]'(hm ▸ hi) := getElem!_pos en i (hm ▸ hi)
+  rw [e1, e2]
+  obtain ⟨hab, hR⟩ := window_filter cnt hs (2 * st[i]) (2 * en[i]'(hm ▸ hi)) (by omega)
+  have hsize : ssRight (cnt.map (·.1)) (2 * en[i]'(hm ▸ hi)) 0 - ssLeft (cnt.map (·.1)) (2 * st[i]) 0 =
+      cntIn cnt.toList (2 * st[i]) (2 * en[i]'(hm ▸ hi)) := by
+    have := congrArg List.length hR
+    simp only [List.length_map, List.length_range] at this
+    unfold cntIn
+    omega
+  rw [hsize]
+  have hw : cntIn cnt.toList (2 * st[i]) (2 * en[i]'(hm ▸ hi)) ≤ nbBins st[i] (en[i]'(hm ▸ hi)) bs := by
+    have h := hcnt
+    unfold jitbin at h
+    have := countK_window _ _ st en hm hc _ bs hbs i hi 0 0 #[] cnt h
+    simpa [cntIn] using this
+  exact Nat.le_trans hw (nbBins_le_width st en hm bs hbs i hi hle)
 
 
 def okIs (r : Except SliceErr (Int × Int)) (a b : Int) : Bool :=
